@@ -28,6 +28,7 @@ func main() {
 	}
 	cornerEmptyKey = os.Getenv("VERIF_CORNER") == "emptykey"
 	cornerWhole = os.Getenv("VERIF_CORNER") == "wholerow"
+	cornerWide = os.Getenv("VERIF_CORNER") == "wide"
 	checkRanks()
 	rnd := rand.New(rand.NewSource(vh.Seed()*7919 + int64(len(mode))))
 	tr := vh.Create(out)
